@@ -397,7 +397,78 @@ def tb3(facts, rep):
             rep.bad(rule, key, '%s:%s' % (ini.file, ini.line), 'EitherRecords pairs kinds %s and parsers %s' % (sel, pairs))
 
 
+def lt1(facts, rep):
+    rule = 'LT-1'
+    rep.rule(rule, 'line-terminator discipline: everything the FASTA/FASTQ readers append to a record\'s sequence or quality '
+                   'string is the result of str::trim_end on the line buffer, so LF and CRLF layouts (and re-wrapping) parse '
+                   'to the same record; the header is trimmed the same way before it is split')
+    n = 0
+    for b in facts.methods('io::fasta::Reader', 'read', 'FastaRead') + facts.methods('io::fastq::Reader', 'read', 'FastqRead'):
+        rep.analysed_body(b)
+        for bb, t in b.calls():
+            info = call_info(t)
+            if not info or not info['fn'].endswith('String::push_str'):
+                continue
+            tgt = fmt(strip(b.expr_operand(t['args'][0], inline_user=True)))
+            if not (tgt.endswith('.seq') or tgt.endswith('.qual')):
+                continue
+            n += 1
+            e = strip(b.expr_operand(t['args'][1], inline_user=True))
+            key = '%s|appended-line-is-trimmed|%s@%d' % (b.path, tgt.rsplit('.', 1)[-1], n)
+            if e[0] == 'call' and e[1].endswith('str::<impl str>::trim_end') or (e[0] == 'call' and e[1].endswith('::trim_end')):
+                rep.ok(rule, key, b.loc(bb), 'push_str(line.trim_end())')
+            else:
+                rep.bad(rule, key, b.loc(bb), 'a line is appended as `%s` without trim_end: a CR of a CRLF line end (or other '
+                                              'trailing whitespace) becomes part of the record' % fmt(e)[:80])
+        # header
+        hd = [bb for bb, t in b.calls() if call_info(t) and call_info(t)['fn'].endswith('::splitn')]
+        key = '%s|header-trimmed-before-split' % b.path
+        okh = False
+        for bb in hd:
+            e = strip(b.expr_operand(b.term(bb)['args'][0], inline_user=True))
+            if e[0] == 'call' and e[1].endswith('::trim_end'):
+                okh = True
+        if hd and okh:
+            rep.ok(rule, key, b.loc(hd[0]), 'line[1..].trim_end().splitn(2, ..)')
+        else:
+            rep.bad(rule, key, '%s:%s' % (b.file, b.line), 'the header line is split without trimming the line end first')
+    rep.floor(rule, 'appends to seq/qual', n, 3)
+
+
+def gd10(facts, rep):
+    rule = 'GD-10'
+    rep.rule(rule, 'FASTQ completeness: once a header was read, fastq::Reader::read returns Ok only on the edge where '
+                   'record.qual is non-empty; the other edge leads to Err(IncompleteRecord) on every path (a stream cut '
+                   'inside a record must not yield a record)')
+    for b in facts.methods('io::fastq::Reader', 'read', 'FastqRead'):
+        rep.analysed_body(b)
+        key = 'fastq::Reader::read|empty-quality-is-incomplete'
+        gs = [g for g in eng_gd.guards(b) if 'is_empty' in g['text'] and '.qual' in g['text']]
+        if len(gs) != 1:
+            rep.bad(rule, key, '%s:%s' % (b.file, b.line), 'expected one test of record.qual.is_empty(), found %d' % len(gs))
+            continue
+        g = gs[0]
+        neg = g['text'].startswith('Not')
+        empty_t = g['f'] if neg else g['t']
+        oks = []
+        for x in eng_gd.region(b, empty_t):
+            for s in b.stmts(x):
+                if s['k'] == 'assign' and s['p']['l'] == 0 and s['r']['k'] == 'agg' and s['r'].get('variant') == 'Ok':
+                    oks.append(x)
+        errs = [x for x in eng_gd.region(b, empty_t) for s in b.stmts(x)
+                if s['k'] == 'assign' and s['r']['k'] == 'agg' and s['r'].get('variant') == 'IncompleteRecord']
+        if oks:
+            rep.bad(rule, key, b.loc(g['bb']), 'a record with an empty quality string can be returned as Ok: a stream truncated '
+                                               'inside a record yields a record that was never written')
+        elif not errs:
+            rep.bad(rule, key, b.loc(g['bb']), 'the empty-quality edge does not produce Error::IncompleteRecord')
+        else:
+            rep.ok(rule, key, b.loc(g['bb']), 'qual.is_empty() -> Err(IncompleteRecord) on every path')
+
+
 def run(facts, rep, ctx):
+    lt1(facts, rep)
+    gd10(facts, rep)
     po2(facts, rep)
     ed1(facts, rep)
     lp1(facts, rep)
